@@ -203,6 +203,8 @@ pub fn build_layout(d: &Value, km: &KeyMap, rng: &mut impl rand::Rng) -> Metadat
     let exp = match d["expires"].as_str().unwrap() {
         "epoch" => chrono::DateTime::UNIX_EPOCH,
         "now" => crate::verify::t0(),
+        // a day whose ISO week-based year differs from its calendar year
+        "yearend" => chrono::TimeZone::with_ymd_and_hms(&chrono::Utc, 2024, 12, 30, 23, 59, 59).unwrap(),
         _ => crate::verify::t0() + chrono::Duration::days(365 * 200),
     };
     let mut b = LayoutMetadataBuilder::new().expires(exp).readme(format!("r{s}"));
